@@ -182,8 +182,15 @@ class C08(core.PropBase):
         "CPython 3.12 as installed",
     ]
 
+    # expressions with 2**63 values or more cannot be held by a Python container: they are outside the Coq
+    # model's domain (it is unbounded) and are checked for the error FAMILY only: such an expression must be
+    # rejected with ExpressionError (fix 4e7d04b), one just below the limit must be accepted
+    HUGE = [("0-9223372036854775807", "ExpressionError"), ("-9223372036854775808-2", "ExpressionError"), ("1-9223372036854775807", "accepted"),
+            ("1-9223372036854775807,-5--1", "ExpressionError"), ("9223372036854775807-0:-1", "ExpressionError"), ("0-18446744073709551616:2", "ExpressionError"),
+            ("0-18446744073709551612:2", "accepted"), ("0-18446744073709551614:2", "ExpressionError"), ("5-5,0-9223372036854775807", "ExpressionError")]
+
     def corpus_cases(self):
-        return [{"s": s} for s in CORPUS]
+        return [{"s": s} for s in CORPUS] + [{"s": s, "huge": want} for s, want in self.HUGE]
 
     def cases(self, tier, seed):
         rng = random.Random(seed * 7919 + 8)
@@ -236,13 +243,19 @@ class C08(core.PropBase):
         try:
             r = IntRangeExpr.from_str(case["s"])
         except BaseException as e:  # noqa: BLE001
-            return ["raise", exn_family(e)]
+            return ["raise", exn_family(e)] if "huge" not in case else ["family", exn_family(e)]
+        if "huge" in case:
+            return ["family", "accepted"]
         return ["ok", list(r)]
 
     def requests(self, case):
+        if "huge" in case:
+            return []
         return [["from_str", False, False, core.cps(case["s"]), []]]
 
     def model_obs(self, case, replies):
+        if "huge" in case:
+            return ["family", case["huge"]]
         r = replies[0]
         if r[0] == "raise":
             return ["raise", model_family(r[1])]
@@ -265,6 +278,8 @@ class C08(core.PropBase):
         return ["accepted; sorted values", r[1]]
 
     def shrink_candidates(self, case):
+        if "huge" in case:
+            return          # never hand a 2**63-value expression to the enumerating model
         s = case["s"]
         parts = s.split(",")
         if len(parts) > 1:
